@@ -717,7 +717,10 @@ C10Clauses(step) == IF IsRT(step, "json") THEN {C10_wf_json(step), C10_read_json
 (* C13 — exporting never mutates the document and is repeatable                 *)
 (* step.res.items = Seq([ex, exc, prev: "same"|"diff"|"first", twin: "same"|"diff"]) *)
 C13_pure(step) ==
-  Cl("C13_pure", step.op.op = "Export", \A h \in DOMAIN step.pre.con : SameCon(step, h))
+  Cl("C13_pure", step.op.op = "Export",
+     /\ \A h \in DOMAIN step.pre.con : SameCon(step, h)
+     \* objects a call was only given to read (the other operand of a comparison) look as before
+     /\ \A i \in 1..Len(step.res.items) : step.res.items[i].frame)
 C13_repeat(step) ==
   Cl("C13_repeat", step.op.op = "Export" /\ \E i \in 1..Len(step.res.items) : step.res.items[i].prev # "first",
      \A i \in 1..Len(step.res.items) : step.res.items[i].prev # "diff")
